@@ -52,17 +52,19 @@ def gen(d, tier):
         cmds.append(c)
     G.fix_implicit_duplicates(cmds)
     groups = G.g_groups(d, cmds, maxgroups=3, disable=True)
-    ng = len(groups)
+    aliased = d.unlikely(1, 8) and G.add_alias(d, groups)   # one command array registered through two groups, one of them disabled
+    # the two registrations of an aliased array keep their group flags (both enabled = every abbreviation of them ambiguous by construction)
+    flippable = [gi for gi, g in enumerate(groups) if g.get("alias") is None and not any(x.get("alias") == gi for x in groups)]
     inp = bytearray()
     actions = []
     nlines = d.rng(3, 10)
     for li in range(nlines):
         # flag flips before this line (barrier li = li LFs consumed and quiescent)
         for _ in range(d.weighted([(3, 0), (4, 1), (2, 2), (1, 4)])):
-            if d.chance(3, 4):
+            if d.chance(3, 4) or not flippable:
                 actions.append([S.AT_LINE, li, S.WA_SETDIS, d.below(n), d.below(2), None])
             else:
-                actions.append([S.AT_LINE, li, S.WA_SETGDIS, d.below(ng), d.below(2), None])
+                actions.append([S.AT_LINE, li, S.WA_SETGDIS, d.pick(flippable), d.below(2), None])
         c = d.pick(cmds)
         nm = G.typed_name_for(d, c["name"], exact_bias=d.chance(2, 3))
         form = d.pick("nrwt")
@@ -170,6 +172,8 @@ def run(case, W):
         labels.add("flag-flips")
     if case.get("pre"):
         labels.add("after-another-parser-instance")
+    if any(g.get("alias") is not None for g in s["groups"]):
+        labels.add("aliased-group")
     if mem[0]:
         return Result(violation=("side-effect", "variables changed before any line"))
     return Result(labels=sorted(labels), nontrivial=nt)
